@@ -112,6 +112,7 @@ class PX:
         pending = [[]]
         paths = []
         self.truncated = 0
+        self.truncated_paths = []
         while pending:
             script = pending.pop()
             self._script, self._pos, self._taken, self._new = script, 0, [], []
@@ -125,6 +126,7 @@ class PX:
                 paths.append(self._path("raise", ex))
             except Truncated:
                 self.truncated += 1
+                self.truncated_paths.append(self._path("truncated", None))
             pending.extend(self._new)
             if len(paths) + len(pending) > self.max_paths:
                 raise AnalysisError(f"path cap {self.max_paths} exceeded")
@@ -893,7 +895,11 @@ class PX:
                 return Sym(f"({_short(l)} {sym} {_short(r)})")
         if isinstance(lv, dict) and isinstance(rv, dict) and isinstance(op, ast.BitOr):
             return {**lv, **rv}
-        return Sym(f"({_short(l)} {sym} {_short(r)})")
+        a, b = _short(l), _short(r)
+        if isinstance(op, (ast.Add, ast.Mult, ast.BitAnd, ast.BitOr, ast.BitXor)) and not isinstance(lv, (str, bytes, bytearray, list, tuple)) \
+                and not isinstance(rv, (str, bytes, bytearray, list, tuple)) and isinstance(l, (int, float, Member)) :
+            a, b = b, a  # canonical form: symbol first, constant second
+        return Sym(f"({a} {sym} {b})")
 
     def e_BinOp(self, e, fr):
         return self.binop(e.op, self.ev(e.left, fr), self.ev(e.right, fr), e)
@@ -1390,8 +1396,10 @@ class PX:
                 if len(args) > 1:
                     return args[1]
                 raise Exc("StopIteration", (), origin=text)
-            self.emit("call", text, args, kw, node=node, frame=fr)
-            return Sym(f"next({_short(a)})#{self._count('next')}")
+            res = Sym(f"next({_short(a)})#{self._count('next')}")
+            if len(args) > 1:
+                return self._take(Outcomes(OK(res), OK(args[1])), text, args, kw, fr, node, "call")
+            return self._take(Outcomes(OK(res), RAISE("StopIteration")), text, args, kw, fr, node, "call")
         if n == "getattr":
             if isinstance(args[1], str):
                 try:
